@@ -14,7 +14,9 @@ DRIVER = "C15"
 RULE = (
     "overload sets of 2-4 variants: declared functions (arity 0-3; parameter types nat/int/float/bool/qubit, tuples, quantified "
     "T0/T1; `nat @comptime` parameters; `qubit @owned` vs borrowed parameters; result numeric/bool/tuple/quantified), nested "
-    "@guppy.overload functions used as variants, and a custom-checker variadic function (any number of ints) x argument lists "
+    "@guppy.overload functions used as variants, a custom-checker variadic function (any number of ints), and variants with an "
+    "ill-formed signature (`int @owned`, non-type annotation, undefined name, wrong number of type arguments, bad result type, "
+    "illegal comptime flag) at any position x argument lists "
     "(typed variables incl. tuple-typed and qubit ones, int/negative int/float/bool literals, tuple literals, nested tuple "
     "literals) in synthesis position (`y = ov(..)`) and three checking positions (`y: T = ov(..)`, `return ov(..)`, "
     "`consume(ov(..))`), called from a regular function and (subset) from a `@guppy.comptime` function; for about 30% of the sets "
@@ -176,10 +178,32 @@ PRELUDE_EXTRA = (
 )
 
 
+BAD_FORMS = {
+    "owned": ("int @owned", "int"),            # @owned on a copyable type
+    "nontype": ("not_a_type", "int"),          # annotation that is not a type (module-level `not_a_type = 42`)
+    "undef": ("UndefinedT", "int"),            # undefined name
+    "arity": ("array[int]", "int"),            # type constructor with too few arguments
+    "arity3": ("array[int, 2, 3]", "int"),     # ... too many
+    "retbad": ("int", "UndefinedR"),           # ill-formed result type
+    "ctfloat": ("float @comptime", "int"),     # comptime flag that a declaration cannot have
+}
+
+
 def vkind(v):
     if v == "ai":
         return "ai"
+    if v[0] == "x":
+        return "x"
     return "o" if v[0] == "o" else "p"
+
+
+def bad_decl(name, v, nargs):
+    """declaration with an ill-formed signature: v = ["x", form, position of the bad parameter]"""
+    ptxt, rtxt = BAD_FORMS[v[1]]
+    n = max(nargs, 1)
+    pos = v[2] % n
+    ps = ", ".join(f"a{j}: {ptxt if j == pos else 'int'}" for j in range(n))
+    return f"@guppy.declare\ndef {name}({ps}) -> {rtxt}: ..."
 
 
 def sig_decl(name, sig):
@@ -201,11 +225,13 @@ def program(case, direct=None):
     """source of the test program; direct=k calls variant k directly instead of the overload"""
     used: set = set()
     args = ", ".join(arg_src(a, used) for a in case["args"])
-    out = ['T0 = guppy.type_var("T0")', 'T1 = guppy.type_var("T1")']
+    out = ['T0 = guppy.type_var("T0")', 'T1 = guppy.type_var("T1")', "not_a_type = 42"]
     for k, v in enumerate(case["variants"]):
         kind = vkind(v)
         if kind == "p":
             out.append(sig_decl(f"v{k}", v))
+        elif kind == "x":
+            out.append(bad_decl(f"v{k}", v, len(case["args"])))
         elif kind == "o":
             for j, sg in enumerate(v[1]):
                 out.append(sig_decl(f"v{k}_{j}", sg))
@@ -281,7 +307,7 @@ def run_seq(case, calls):
         ids = {}
         for k, v in enumerate(case["variants"]):
             kind = vkind(v)
-            if kind == "p":
+            if kind in ("p", "x"):
                 ids[getattr(m, f"v{k}").id] = str(k)
             elif kind == "o":
                 for j in range(len(v[1])):
@@ -340,7 +366,7 @@ def run_real(case, direct=None):
         ids = {}
         for k, v in enumerate(case["variants"]):
             kind = vkind(v)
-            if kind == "p":
+            if kind in ("p", "x"):
                 ids[getattr(m, f"v{k}").id] = str(k)
             elif kind == "o":
                 for j in range(len(v[1])):
@@ -384,7 +410,7 @@ def _run_comptime(m, ids, case):
     names = {}
     for k, v in enumerate(case["variants"]):
         kind = vkind(v)
-        if kind == "p":
+        if kind in ("p", "x"):
             names[f"v{k}"] = str(k)
         elif kind == "o":
             for j in range(len(v[1])):
@@ -425,19 +451,41 @@ def show(res, with_types=True):
 
 
 # ------------------------------------------------------------------ oracle: direct calls
+def definition_valid(case, k):
+    """is variant k's own definition well-formed (checked alone in a fresh program, no call)"""
+    import feed
+
+    if vkind(case["variants"][k]) in ("o", "ai"):
+        return True
+    src = program(dict(case, comptime_caller=False), direct=k)
+    m = feed.load(src, prelude=feed.PRELUDE + PRELUDE_EXTRA)
+    try:
+        kind, _ = feed.check_outcome(getattr(m, f"v{k}"))
+        return kind == "ok"
+    finally:
+        feed.unload(m)
+
+
 def oracle(case):
-    """first variant whose direct call in a fresh program is accepted by signature (succeeds, or fails only in the
-    linearity checker); the outcome of that direct call is what the overloaded call must give"""
-    accepted, first = [], None
+    """First-match search with direct calls in fresh programs: a variant accepts when its direct call succeeds (or fails
+    only in the linearity checker); a variant whose own definition is ill-formed, if reached, makes the call fail with the
+    diagnostic of its direct call; otherwise the next variant is tried.  -> (outcome, accepting variants, index of the
+    ill-formed variant that was reached or None)"""
+    accepted, first, abort = [], None, None
     for k in range(len(case["variants"])):
         r, _ = run_real(case, direct=k)
         if r[0] in ("ok", "lin"):
             accepted.append(k)
-            if first is None:
+            if first is None and abort is None:
                 first = r
-        elif r[0] not in ("err", "none"):
-            return ("oracle-" + r[0], r[1]), accepted
-    return (first if accepted else ("none",)), accepted
+        elif r[0] == "err":
+            if first is None and abort is None and not definition_valid(case, k):
+                abort = (k, r)
+        elif r[0] != "none":
+            return ("oracle-" + r[0], r[1]), accepted, None
+    if abort is not None:
+        return abort[1], accepted, abort[0]
+    return (first if first is not None else ("none",)), accepted, None
 
 
 # ------------------------------------------------------------------ generator
@@ -575,6 +623,14 @@ def rand_case(rng):
             variants.append(decorate(rng, v, args))
             if fits and not tyvars(v[1], set()):
                 fitting.append(v[1])
+    if rng.random() < 0.14:
+        # an ill-formed variant at any position (before, between, after the accepting ones)
+        bad = ["x", rng.choice(sorted(BAD_FORMS)), rng.randrange(3)]
+        j = rng.randrange(len(variants) + 1)
+        if len(variants) >= 4:
+            variants[min(j, 3)] = bad
+        else:
+            variants.insert(j, bad)
     exp, pos = None, "syn"
     if rng.random() < 0.55:
         pos = rng.choice(["ann", "ann", "ret", "arg"])
@@ -599,6 +655,7 @@ def rand_case(rng):
         for v in variants:
             for sg in ([v] if vkind(v) == "p" else v[1] if vkind(v) == "o" else []):
                 sg[2] = [0] * len(sg[2])
+        case["variants"] = [v for v in variants if vkind(v) != "x"] if sum(vkind(v) != "x" for v in variants) >= 2 else variants
     return case
 
 
@@ -644,7 +701,7 @@ def line(case, op="res"):
     vs = []
     for v in case["variants"]:
         kind = vkind(v)
-        vs.append("ai" if kind == "ai" else sig_sx(v) if kind == "p" else "(o " + " ".join(sig_sx(sg) for sg in v[1]) + ")")
+        vs.append("ai" if kind == "ai" else "x" if kind == "x" else sig_sx(v) if kind == "p" else "(o " + " ".join(sig_sx(sg) for sg in v[1]) + ")")
     return f"({op} {'-' if case['exp'] is None else ty_sx(case['exp'])} ({' '.join(vs)}) ({' '.join(arg_sx(a) for a in case['args'])}))"
 
 
@@ -665,6 +722,8 @@ def _norm(c):
     def var(v):
         if v == "ai":
             return "ai"
+        if v[0] == "x":
+            return ["x", v[1], int(v[2])]
         if v[0] == "o":
             return ["o", [sig(sg) for sg in v[1]]]
         return sig(v)
@@ -699,7 +758,7 @@ def cases(ctx):
 def judge(ctx, c, ln, mv):
     """one overloaded call in its own program: real vs direct-call oracle vs model; returns (real result, oracle result)"""
     res, src = run_real(c)
-    orc, accepted = oracle(c)
+    orc, accepted, abort = oracle(c)
     r, o = show(res), show(orc)
     key = "case:" + ln + f" pos={c['pos']}" + (" comptime" if c["comptime_caller"] else "")
     nontrivial = len(c["variants"]) >= 2 and 0 not in accepted
@@ -724,6 +783,9 @@ def judge(ctx, c, ln, mv):
     elif res[0] == "lin":
         # rejected later by the linearity checker: resolution itself picked the oracle's variant
         agree = mv != "none" and orc[0] == "lin" and accepted and mv.split(" ")[0].split(".")[0] == str(accepted[0])
+    elif res[0] == "err":
+        # the signature diagnostic of an ill-formed variant that the search reached
+        agree = abort is not None and mv == f"invalid {abort}"
     else:
         agree = False
     if not agree:
